@@ -601,14 +601,30 @@ namespace
     std::vector<TimerPlan> g_timers;
     DateTime               g_start{};
     std::atomic<long long> g_timer_evals{0};
+    // stop requests that arrive while the graph is still STARTING: from a node's own start hook (g_stop_in_start = node index) or
+    // from another thread while one start hook is slow (g_slow_start = node index, g_slow_start_ms; g_in_start tells the controller)
+    long long              g_stop_in_start{-1}, g_slow_start{-1}, g_slow_start_ms{0};
+    std::atomic<bool>      g_in_start{false};
 
     struct TimerNode
     {
         static constexpr auto name = "verif_timer";
-        static void start(NodeScheduler sched, State<Int> st, Scalar<"idx", Int> idx, EvaluationClockView clock, DateTime now)
+        static void start(NodeScheduler sched, State<Int> st, Scalar<"idx", Int> idx, EvaluationClockView clock, EngineControlView engine,
+                          DateTime now)
         {
             const TimerPlan &p = g_timers.at((std::size_t)idx.value());
             st.set(Int{0});
+            if (g_stop_in_start == (long long)idx.value())
+            {
+                const long long c = g_trace->now();
+                engine.request_stop();
+                g_trace->line("STOP " + std::to_string(c) + " " + std::to_string(g_trace->now()));
+            }
+            if (g_slow_start == (long long)idx.value())
+            {
+                g_in_start.store(true);
+                std::this_thread::sleep_for(std::chrono::milliseconds(g_slow_start_ms));
+            }
             DateTime when{};
             if (p.kind == "rel" || p.kind == "chain") { when = now + TimeDelta{p.us}; sched.schedule(TimeDelta{p.us}); }
             else if (p.kind == "abs") { when = g_start + TimeDelta{p.us}; sched.schedule(when); }
@@ -670,6 +686,13 @@ namespace
         const long long past   = geti(kv, "start_past_ms", 0);
         const long long slice  = geti(kv, "slice_us", 0);
         g_timer_evals.store(0);
+        g_stop_in_start = g_slow_start = -1;
+        g_in_start.store(false);
+        {
+            const auto sp0 = split(stop, ':');
+            if (sp0[0] == "instart") g_stop_in_start = std::atoll(sp0.at(1).c_str());
+            if (sp0[0] == "slowstart") { g_slow_start = std::atoll(sp0.at(1).c_str()); g_slow_start_ms = std::atoll(sp0.at(2).c_str()); }
+        }
         GraphBuilder gb = build_graph<TimerGraph>(WiringOptions{.is_realtime = true});
         g_start = hgraph::testing::wall_now() - TimeDelta{past * 1000};
         GraphExecutorBuilder eb;
@@ -683,6 +706,15 @@ namespace
             if (sp[0] == "afterms")
             {
                 std::this_thread::sleep_for(std::chrono::microseconds(std::atoll(sp.at(1).c_str()) * 1000 + (sp.size() > 2 ? std::atoll(sp[2].c_str()) : 0)));
+                const long long c = tr.now();
+                view.request_stop();
+                tr.line("STOP " + std::to_string(c) + " " + std::to_string(tr.now()));
+            }
+            else if (sp[0] == "slowstart")
+            {
+                // the request lands while a start hook of the graph is still running
+                while (!g_in_start.load() && !returned.load()) std::this_thread::sleep_for(std::chrono::microseconds(200));
+                std::this_thread::sleep_for(std::chrono::milliseconds(1));
                 const long long c = tr.now();
                 view.request_stop();
                 tr.line("STOP " + std::to_string(c) + " " + std::to_string(tr.now()));
